@@ -28,6 +28,7 @@ C08-c hooks wired: both fat32 constructors install WriteBootSectorFn and AfterWr
 C08-d release (= C01-a): clusters of removed/replaced/truncated files do not stay marked used.
 C08-e layout agreement of the boot-sector/BPB/FSInfo encoders and decoders (byte-layout extraction, see codec rules).
 C08-f terminator discipline: on every success path of the allocator a chain link written with SetCluster is followed by an end-of-chain mark; freed clusters receive UnusedMarker().
+C08-i a refused create releases what it allocated: after a call that allocates a fresh chain for a new entry (a function that calls allocateSpace with no previous chain, such as mkFile / mkSubdir) succeeded, every error return that lies behind that success passes a call of a cluster-releasing function: the property demands, after refused operations too, that no cluster is marked used that no file or directory owns.
 C08-g sector-unit discipline in the FAT packages: a sector number or sector count taken from the BPB (reserved sectors, sectors per FAT, FSInfo sector, backup boot sector, root directory sectors) becomes a byte offset only through the volume's own sector size: the scaling factor never has the literal 512/4096 among the roots of its value (directly or through a helper that falls back to a default), because the property quantifies over 512- and 4096-byte sectors.
 C08-h the FAT encoders (Bytes() of the three tables) return a buffer allocated by that call (or one they clear first): entries that are zero are skipped by the 12-bit encoder, so a buffer kept between calls would keep the links of released clusters on disk.
 Not covered: geometry formulas (sectors-per-FAT rounding, FAT32 maxCluster overrun), chain well-formedness under arbitrary histories.`)
@@ -695,6 +696,8 @@ func runC08(w *World, r *Report) {
 	runCodecFamily(w, r, "C08-e", codecPairsC08)
 	c08SectorUnits(w, r)
 	c08FreshTableBytes(w, r)
+	c08RefusedCreateReleases(w, r, "C08-i")
+	r.Floor("C08-i", r.countRule("C08-i"), 2)
 	r.Floor("C08-g", r.countRule("C08-g"), 6)
 	r.Floor("C08-h", r.countRule("C08-h"), 3)
 	r.Floor("C08-e", r.countRule("C08-e"), 7)
@@ -1274,6 +1277,85 @@ func c08FreshTableBytes(w *World, r *Report) {
 			}
 			r.Check(fresh || cleared, "C08-h", fnName(fn), "FAT encoding starts from a zeroed buffer", w.relFile(fn.Pos()), "",
 				"Bytes() returns a buffer that is not allocated by the call (and is not cleared first): entries the encoder skips because they are zero keep the bytes of an earlier encoding, so the links of released clusters stay on disk in both FAT copies")
+		}
+	}
+}
+
+// c08RefusedCreateReleases (C08-i / C01-f): error returns behind a successful fresh allocation release it.
+func c08RefusedCreateReleases(w *World, r *Report, rule string) {
+	rels := map[*ssa.Function]bool{}
+	for _, rf := range fatReleaseFns(w) {
+		rels[rf.fn] = true
+	}
+	// functions that allocate a fresh chain: allocateSpace(_, 0)
+	as := fatMethod(w, "FileSystem", "allocateSpace")
+	fresh := map[*ssa.Function]bool{}
+	for _, fn := range w.ModFns {
+		if !inFatPkg(w, fn) {
+			continue
+		}
+		for _, c := range calls(fn, false, func(c ssa.CallInstruction) bool { return c.Common().StaticCallee() == as }) {
+			args := argsOf(c)
+			if len(args) == 2 {
+				if k, ok := constInt(args[1]); ok && k == 0 {
+					fresh[fn] = true
+				}
+			}
+		}
+	}
+	if as == nil || len(fresh) == 0 {
+		r.Undecided(rule, "filesystem/fat12", "fresh allocations", "filesystem/fat12", "no function allocates a fresh chain with allocateSpace(_, 0)")
+		return
+	}
+	for _, fn := range w.ModFns {
+		if !inFatPkg(w, fn) || fresh[fn] {
+			continue
+		}
+		for _, cc := range calls(fn, false, func(c ssa.CallInstruction) bool { return fresh[c.Common().StaticCallee()] }) {
+			c, ok := cc.(*ssa.Call)
+			if !ok {
+				continue
+			}
+			iff, nilIdx := errNilEdge(fn, c)
+			if iff == nil {
+				continue
+			}
+			hasRelease := func(b *ssa.BasicBlock) bool {
+				for _, ins := range b.Instrs {
+					if ci, ok := ins.(ssa.CallInstruction); ok && rels[ci.Common().StaticCallee()] {
+						return true
+					}
+				}
+				return false
+			}
+			// error returns dominated by the success edge, reachable from it without passing a release
+			start := iff.Block().Succs[nilIdx]
+			seen := map[*ssa.BasicBlock]bool{}
+			st := []*ssa.BasicBlock{start}
+			k := 0
+			for len(st) > 0 {
+				b := st[len(st)-1]
+				st = st[:len(st)-1]
+				if seen[b] || !edgeDominates(iff.Block(), nilIdx, b) {
+					continue
+				}
+				seen[b] = true
+				if hasRelease(b) {
+					continue
+				}
+				if ret, ok := lastInstr(b).(*ssa.Return); ok {
+					if classifyReturn(ret) == RetError {
+						k++
+						r.Fail(rule, fnName(fn), fmt.Sprintf("error return behind %s releases the new chain #%d", c.Call.StaticCallee().Name(), k), w.relFile(instrPos(ret)),
+							"after "+c.Call.StaticCallee().Name()+" allocated a cluster for the new entry, this error return is reached without releasing it: every refused create or mkdir (directory full, no space to grow it) leaves one more cluster marked used that nothing owns, until the volume reports no space")
+					}
+					continue
+				}
+				st = append(st, b.Succs...)
+			}
+			if k == 0 {
+				r.Ok(rule, fnName(fn), "error returns behind "+c.Call.StaticCallee().Name()+" release the new chain", w.relFile(c.Pos()), "")
+			}
 		}
 	}
 }
